@@ -519,6 +519,14 @@ namespace R
                if( res > 0 ) touch( pos + res );
                return fail();
             }
+            case THOLE: {  // terminal hole: same answers, never a residue
+               const int an = hole_answer( self, pos, end );
+               if( an >= A_SUCC0 ) return ok( pos + an - A_SUCC0 );
+               if( an == A_PE ) return { HPE, 0, self, pos, pos, -1 };
+               if( an == A_STD ) return { HSTD, 0, self, pos, pos, -1 };
+               if( an == A_X ) return { HX, 0, self, pos, pos, -1 };
+               return fail();
+            }
             case ANY: return any( pos );
             case ONE_A: return ( pos < end && ch( pos ) == 'a' ) ? ok( pos + 1 ) : fail();
             case ONE_B: return ( pos < end && ch( pos ) == 'b' ) ? ok( pos + 1 ) : fail();
